@@ -170,13 +170,14 @@ func newSession(config *Config, conn net.Conn, isClient bool) (*Session, error) 
 		return nil, err
 	}
 
+	// before the connection is registered: from then on the event loop may close the session (and drop queueManager)
+	s.mu.Lock()
+	s.name = s.queueManager.path
+	s.mu.Unlock()
 	s.eventConn = s.dispatcher.newConnection(fd)
 	if err := s.eventConn.setCallback(s); err != nil {
 		return nil, err
 	}
-	s.mu.Lock()
-	s.name = s.queueManager.path
-	s.mu.Unlock()
 	//currently, netConn only using for get remote address and local address.
 	//maybe it could be optimized in the future
 	go s.send()
